@@ -467,6 +467,80 @@ func underLoad(ctx *core.Ctx, bin string, caseNo int, point string) {
 	os.Remove(s2.AOFPath() + ".tmp")
 }
 
+// ackThenKill: one acknowledged write, the process killed the moment its +OK
+// arrives, restart, the write must be there. The write travels alone, behind
+// another write, or in one packet with a command that turns the connection into
+// a stream (SUBSCRIBE, PSUBSCRIBE, a live fence, MONITOR) - the reply paths of
+// the connection loop differ between these.
+func ackThenKill(ctx *core.Ctx, bin string) {
+	shapes := []struct {
+		name string
+		tail [][]string
+	}{
+		{"alone", nil},
+		{"then-ping", [][]string{{"PING"}}},
+		{"then-subscribe", [][]string{{"SUBSCRIBE", "akch"}}},
+		{"then-psubscribe", [][]string{{"PSUBSCRIBE", "ak*"}}},
+		{"then-live-fence", [][]string{{"NEARBY", "akf", "FENCE", "POINT", "33", "-112", "1000"}}},
+		{"then-monitor", [][]string{{"MONITOR"}}},
+		{"then-quit", [][]string{{"QUIT"}}},
+	}
+	rounds := ctx.Pick(2, 8)
+	for _, sh := range shapes {
+		s, err := srv.Start(srv.Opts{Bin: bin})
+		if err != nil {
+			ctx.Inconclusive("ack-then-kill: " + err.Error())
+			return
+		}
+		for round := 0; round < rounds; round++ {
+			tok := fmt.Sprintf("ak-%s-%d", sh.name, round)
+			c, err := respc.Dial(s.Addr(), 5*time.Second)
+			if err != nil {
+				ctx.Inconclusive("ack-then-kill: " + err.Error())
+				s.Kill9()
+				return
+			}
+			var buf []byte
+			buf = append(buf, respc.Encode("SET", "akk", "o"+strconv.Itoa(round), "FIELD", "n", strconv.Itoa(round+1), "STRING", tok)...)
+			for _, t := range sh.tail {
+				buf = append(buf, respc.Encode(t...)...)
+			}
+			c.WriteRaw(buf)
+			rp, err := c.RecvTimeout(5 * time.Second)
+			s.Kill9()
+			c.Close()
+			if err != nil || rp.IsErr() {
+				ctx.Inconclusive(fmt.Sprintf("ack-then-kill %s: no acknowledgement: %v %s", sh.name, err, rp.String()))
+				return
+			}
+			s2, err := s.Restart()
+			if err != nil {
+				ctx.Violation("restart-fails:ack-then-kill", "server does not start after kill -9 behind an acknowledged write ("+sh.name+"): "+err.Error(), nil)
+				return
+			}
+			s = s2
+			c2, err := respc.Dial(s.Addr(), 5*time.Second)
+			if err != nil {
+				ctx.Inconclusive("ack-then-kill: " + err.Error())
+				s.Kill9()
+				return
+			}
+			got, _ := c2.Do("GET", "akk", "o"+strconv.Itoa(round))
+			c2.Close()
+			ctx.Eval(1)
+			ctx.Count("ack_then_kill_rounds", 1)
+			ctx.Distinct("ack-then-kill|" + sh.name)
+			if got.Str != tok {
+				ctx.Violation("acked-write-lost:ack-then-kill:"+sh.name, fmt.Sprintf("`SET akk o%d FIELD n %d STRING %s` (%s, one packet) was acknowledged with %s, the process was killed right after the reply, and after the restart GET answers %s", round, round+1, tok, sh.name, rp.String(), got.String()),
+					map[string]any{"shape": sh.name, "packet": string(buf)})
+				s.Kill9()
+				return
+			}
+		}
+		s.Kill9()
+	}
+}
+
 // Run is the C03 check.
 func Run(ctx *core.Ctx) {
 	ctx.Rule = "command matrix: every data-modifying command (directly, and each script-callable one from EVAL/EVALSHA/EVALNA/EVALNASHA) is the LAST write to a dedicated key, then stop (SIGTERM and kill -9), restart, per-row dump comparison; quiescent cases: generated history over every data-modifying command (SET/FSET/DEL/PDEL/DROP/RENAME/RENAMENX/FLUSHDB/EXPIRE/PERSIST/JSET/JDEL, SETHOOK/SETCHAN/DELHOOK/PDELHOOK/DELCHAN/PDELCHAN, EVAL/EVALSHA/EVALNA/EVALNASHA scripts that write, short TTLs that expire before the stop), API dump before stop (SIGTERM or kill -9) vs after restart, plus a second restart; load cases: 2-7 connections writing unique tokens, kill -9 at a PRNG instant or self-kill at a named crash point, then: every acknowledged token present (or a later in-flight one), no partially applied object, recovered state == model replay of the recovered log. non-trivial = history with >= 4 command kinds and >= 1 object / load case with >= 3 acknowledged writes; distinct key = (stop kind, set of command kinds) / (crash kind, connections)"
@@ -484,6 +558,7 @@ func Run(ctx *core.Ctx) {
 	matrix(ctx, bin, "kill9", false)
 	matrix(ctx, bin, "sigterm", true)
 	shaFenceRow(ctx, bin)
+	ackThenKill(ctx, bin)
 	nq := ctx.Pick(10, 300)
 	par := 6
 	var wg sync.WaitGroup
